@@ -54,6 +54,7 @@ def table_cases(draw):
     if shape == "zero-inside" and n >= 4:
         i = draw(st.integers(1, n - 3))
         p[i] = p[i + 1] = 0.0
+    p = [0.0 if v < 1e-9 else v for v in p]   # exact zeros are generated on purpose; denormal "densities" are not a table
     if max(p) <= 0:
         p[draw(st.integers(0, n - 1))] = 1.0
     return {"seed": draw(st.integers(0, 2**31)), "grid": grid, "widths": widths, "shape": shape, "p": p,
